@@ -190,8 +190,10 @@ def validate(spec_dir, module, cfg, trace_path, timeout=900, heap='8g', workers=
         rc, out, wall, cmd = _run(args, work, timeout,
                                   env_extra={'TRACE_FILE': trace_path}, heap=heap)
         if rc != 0:
+            brief = '\n'.join(l for l in out.splitlines()
+                              if not l.startswith(('Parsing file', 'Semantic processing', 'Linting')))
             raise MachineryError('trace validation TLC rc=%s (%s/%s)\n%s'
-                                 % (rc, module, cfg, out[-4000:]))
+                                 % (rc, module, cfg, brief[-2500:]))
         verdicts = []
         for line in out.splitlines():
             line = line.strip()
